@@ -62,3 +62,24 @@ func (x sharedTransactionData) shiftChecksum(data) (ok, r)
 lemma framingRoundTrip [C13]: forall x sharedTransactionData, d Bytes :: len(cks(x)) == 4 ==> len(cks(x) ++ d) >= 4 && prefix(cks(x), cks(x) ++ d) && (cks(x) ++ d)[4:] == d
 lemma framingRejects [C13]: forall x sharedTransactionData, y sharedTransactionData, d Bytes :: len(cks(x)) == 4 && len(cks(y)) == 4 && cks(x) != cks(y) ==> !prefix(cks(y), cks(x) ++ d)
 @*/
+
+/*@
+module txwindow
+props C13
+dialect go64
+
+// C13 (helper clause): every committee member derives the same nonce and validity window for the transactions it sends
+// from the chain height alone: for a height h read once from the callback, Nonce = 100 * floor(h / 100) and
+// ValidUntilBlock = Nonce + 100, saturating at MaxUint32 - so Nonce <= h < ValidUntilBlock (or the window is the last one), and
+// two members that read heights of the same 100-block window build identical parameters. actor.DefaultCheckerModifier is
+// assumed to leave the transaction alone (A10).
+pure height(k Int) Int = asint(cres("getBlockchainHeight", k))
+
+func neoFSRuntimeTransactionModifier(r, tx) (err)
+  closure
+  ensures [C13] isnil(err) ==> xcalls("getBlockchainHeight").len == old(xcalls("getBlockchainHeight")).len + 1
+  ensures [C13] isnil(err) ==> cur(tx).Nonce == 100 * (height(old(xcalls("getBlockchainHeight")).len) / 100)
+  ensures [C13] isnil(err) ==> cur(tx).ValidUntilBlock == (cur(tx).Nonce < 4294967195 ? cur(tx).Nonce + 100 : 4294967295)
+  ensures [C13] isnil(err) ==> cur(tx).Nonce <= height(old(xcalls("getBlockchainHeight")).len) && height(old(xcalls("getBlockchainHeight")).len) - cur(tx).Nonce < 100
+  ensures [C13] !isnil(err) ==> cur(tx) == tx
+@*/
